@@ -461,6 +461,43 @@ class FnAnalysis:
         self.cur_clos = None
         self._run()
 
+    def _write_targets(self):
+        """names of locals handed as `&mut x` to something that writes to it through the stream interface (Write::write_all(&mut x, ..), a local
+        callee whose summary writes to that parameter): such a byte vector is a sink whose length is its stream position"""
+        if not hasattr(self, "_wt"):
+            from hir import walk
+            out = set()
+            bodies = [self.fn["body"]]
+            for fr in list(self.frames):
+                cal = self.facts.fn(fr)
+                if cal is not None and cal.get("body") is not None:
+                    bodies.append(cal["body"])
+            seen_fns = set()
+            work = list(bodies)
+            while work:
+                b = work.pop()
+                for n in walk(b):
+                    if n["k"] not in ("Call", "MCall"):
+                        continue
+                    fn = n.get("fn") or ""
+                    args = ([n["recv"]] if n["k"] == "MCall" else []) + n["args"]
+                    summ = self.summaries.get(fn)
+                    for i, a in enumerate(args):
+                        tgt = a
+                        while tgt is not None and tgt["k"] == "Ref":
+                            tgt = tgt["e"]
+                        if tgt is None or tgt["k"] != "Local":
+                            continue
+                        writes = (fn in WRITE_FNS and i == 0) or (summ is not None and "write" in (summ.get(i) or ()))
+                        if writes:
+                            out.add(tgt.get("name"))
+                    cal = self.facts.fn(fn) if fn in getattr(self.facts, "fns", {}) else None
+                    if cal is not None and cal.get("body") is not None and fn not in seen_fns and cal.get("vis") != "pub":
+                        seen_fns.add(fn)
+                        work.append(cal["body"])
+            self._wt = out
+        return self._wt
+
     # -- helpers
     def fresh(self):
         self.uid += 1
@@ -1014,6 +1051,23 @@ class FnAnalysis:
                 # the inlined callee already took its error exit on this path
                 self.ev(s, "decide", e, how="try", outcome=False, cond=v, cond_node=e["e"])
                 self.finish(s, v, e)
+                continue
+            none_t = ("call", "core::option::Option::None", (), None)
+            if isinstance(vv, tuple) and vv and vv[0] == "call" and vv[3] is None and vv[1] == "core::option::Option::None":
+                # `None?` in a function returning Option: the function answers None
+                self.ev(s, "decide", e, how="try", outcome=False, cond=v, cond_node=e["e"], folded=True)
+                self.finish(s, none_t, e)
+                continue
+            if isinstance(vv, tuple) and vv and vv[0] == "call" and vv[3] is None and vv[1] == "core::option::Option::Some" and len(vv[2]) == 1:
+                self.ev(s, "decide", e, how="try", outcome=True, cond=v, cond_node=e["e"], folded=True)
+                outs.append((s, vv[2][0]))
+                continue
+            if (e["e"].get("ty") or "").startswith("core::option::Option<"):
+                s_none = s.fork()
+                self.ev(s_none, "decide", e, how="tryopt", outcome=False, cond=v, cond_node=e["e"])
+                self.finish(s_none, none_t, e)
+                self.ev(s, "decide", e, how="tryopt", outcome=True, cond=v, cond_node=e["e"])
+                outs.append((s, v))
                 continue
             if isinstance(vv, tuple) and vv and vv[0] == "call" and vv[1] == "core::result::Result::Err" and vv[3] is None:
                 self.ev(s, "decide", e, how="try", outcome=False, cond=v, cond_node=e["e"])
@@ -1685,7 +1739,13 @@ class FnAnalysis:
                     self.bump(st, u, None, None)
                     effects.append(("unknown", u))
         if ret is None and name == "len" and len(vals) == 1:
-            ret = ("call", "len", (vals[0],), None)
+            rv_ = self.root_var(arg_nodes[0]) if arg_nodes else None
+            if rv_ is not None and rv_ in st.pos and "Vec<u8>" in (self.var_types.get(rv_, "") or tys[0]) and st.under.get(rv_, frozenset([rv_])) == frozenset([rv_]) and \
+                    self.var_names.get(rv_) in self._write_targets():
+                # a byte vector that has been written to through `Write`: its length is its stream position (it started empty)
+                ret = st.pos[rv_]
+            else:
+                ret = ("call", "len", (vals[0],), None)
         if ret is None and name in ("as_slice", "as_mut_slice", "as_mut_vec", "deref", "deref_mut", "borrow", "as_ref") and len(vals) == 1 and \
                 ("Vec<" in tys[0] or tys[0].lstrip("&").replace("mut ", "").startswith("[")):
             self.ev(st, "call", e, fn=fn, args=tuple(vals), arg_nodes=arg_nodes, recv=recv_node, ret=vals[0], effects=(), uid=None, tys=tys,
@@ -1793,6 +1853,15 @@ def _const_truth(v):
     if isinstance(v, tuple) and v and v[0] == "un" and v[1] == "!":
         inner = _const_truth(v[2])
         return None if inner is None else (not inner)
+    if isinstance(v, tuple) and v and v[0] == "call" and v[1].endswith(("::is_none", "::is_some", "::is_ok", "::is_err")) and len(v[2]) == 1:
+        a = v[2][0]
+        while isinstance(a, tuple) and a and a[0] == "mut":
+            a = a[1]
+        if isinstance(a, tuple) and a and a[0] == "call" and a[3] is None:
+            ctor = {"core::option::Option::None": "none", "core::option::Option::Some": "some", "core::result::Result::Ok": "ok", "core::result::Result::Err": "err"}.get(a[1])
+            if ctor is not None:
+                want = {"::is_none": "none", "::is_some": "some", "::is_ok": "ok", "::is_err": "err"}[[x for x in ("::is_none", "::is_some", "::is_ok", "::is_err") if v[1].endswith(x)][0]]
+                return ctor == want
     if isinstance(v, tuple) and v and v[0] == "bin" and v[1] in ("&&", "||"):
         l, r = _const_truth(v[2]), _const_truth(v[3])
         if v[1] == "&&":
